@@ -48,7 +48,11 @@ pub fn build(dict: &str, aux: &Value) -> Vec<u8> {
     e.push((60, XEntry::Free { next: 0, gen: 1 }));
     let o = d.obj(68, 0, &catalog_body(51));
     e.push((68, XEntry::InUse { off: o, gen: 0 }));
-    d.xref_table(&e, 70, "/Root 68 0 R", None, Split::Min);
+    // 62: defined in the original body, freed by an incremental update (the newest mention is the free entry)
+    let o = d.obj(62, 0, b"<< /Type /Pages /Kids [] /Count 0 /Stale true >>");
+    e.push((62, XEntry::InUse { off: o, gen: 0 }));
+    let first = d.xref_table(&e, 70, "/Root 68 0 R", None, Split::Min);
+    d.xref_table(&[(62, XEntry::Free { next: 0, gen: 1 })], 70, "/Root 68 0 R", Some(first), Split::Min);
     d.buf
 }
 
